@@ -5,6 +5,8 @@
 import OttoVerif.C10.Lemmas
 import OttoVerif.C10.ProtoLemmas
 import OttoVerif.C10.MatchLemmas
+import OttoVerif.C10.CtxLemmas
+import OttoVerif.C10.Driver
 import OttoVerif.C10.Match
 import OttoVerif.C10.Model
 import OttoVerif.C10.Spec
@@ -166,5 +168,76 @@ theorem search_protocol (E : Model.Eng) (S : Spec.SEng) (t : List Nat) (L : Link
 /-- String.prototype.match with a non-global regexp = exec (§15.5.4.10 step 7). -/
 theorem nonglobal_match (E : Model.Eng) (S : Spec.SEng) (t : List Nat) (L : Link E S t) (rx : RX) (hg : rx.global = false) :
     Model.builtinStringMatch E rx t = Spec.stringMatch S rx t := Lem.match_nonglobal_eq E S t L rx hg
+
+/-! ## 5. end to end: the real matcher satisfies the link -/
+
+/-- **matcher_context_free.**  A pattern without `^`, `\b`, `\B` matches in the suffix `s[k:]` exactly as
+    in `s`, with every position shifted by `k` (all results, in order) – the hypothesis
+    "find is context-free" of the design, proved for the reference matcher in both dialects. -/
+theorem matcher_context_free (d : Dialect) (s : List Nat) (k : Nat) (hk : k ≤ s.length) (r : Re) (hr : noLeftCtx r = true)
+    (gi : Nat) (x : MS) : (m d (s.drop k) r gi x).map (shMS k) = m d s r gi (shMS k x) :=
+  Lem.m_shift d s k hk r hr gi x
+
+/-- **exec_end_to_end.**  Pattern in the sub-subset `simpleLoops`, without `^ \b \B`, atoms agreeing on
+    an ASCII subject: every history of exec / test / lastIndex writes on the RegExp object behaves
+    as ES5 prescribes when otto runs Go's matcher for the translated tree on `target[index:]`.
+    (Combines matcher_preserved, matcher_context_free and exec_history.) -/
+theorem exec_end_to_end (i mm : Bool) (r : Re) (t : List Nat) (hasc : ascii t) (hsmall : (t.length : Int) < Model.maxInt64)
+    (hs : r.simpleLoops = true) (hc : noLeftCtx r = true) (ha : agree i mm t r)
+    (repU : List Nat → List Nat) (steps : List Step) (rx : RX) (h : steps.all execStep = true) :
+    Model.run (charEngine (dG i mm) r) t rx steps = Spec.run (es5Eng (dE i mm) r) t repU rx steps :=
+  Lem.history_eq _ _ t (Lem.link_matcher i mm r t hasc hsmall hs hc ha) repU steps rx h
+
+/-- the same for String.prototype.search -/
+theorem search_end_to_end (i mm : Bool) (r : Re) (t : List Nat) (hasc : ascii t) (hsmall : (t.length : Int) < Model.maxInt64)
+    (hs : r.simpleLoops = true) (hc : noLeftCtx r = true) (ha : agree i mm t r) (rx : RX) :
+    Model.builtinStringSearch (charEngine (dG i mm) r) rx t = Spec.stringSearch (es5Eng (dE i mm) r) rx t :=
+  Lem.search_eq _ _ t (Lem.link_matcher i mm r t hasc hsmall hs hc ha) rx
+
+/-- Dev `exec_substring`: /^a/g, lastIndex = 1, exec("aa") – the cut string starts with "a" -/
+example : Model.run (charEngine (dG false false) (.seq .bol (.ch (.lit 97)))) [97, 97] ⟨true, .int 0⟩ [.setLI (.int 1), .exec]
+    ≠ Spec.run (es5Eng (dE false false) (.seq .bol (.ch (.lit 97)))) [97, 97] id ⟨true, .int 0⟩ [.setLI (.int 1), .exec] := by decide
+/-- Dev `match_global`: "b".match(/a/g) is undefined, not null -/
+example : Model.run (charEngine (dG false false) (.ch (.lit 97))) [98] ⟨true, .int 0⟩ [.mtch]
+    ≠ Spec.run (es5Eng (dE false false) (.ch (.lit 97))) [98] id ⟨true, .int 0⟩ [.mtch] := by decide
+/-- Dev `replace_global_lastindex`: "ba".replace(/a/g,"x") leaves lastIndex 2 -/
+example : Model.run (charEngine (dG false false) (.ch (.lit 97))) [98, 97] ⟨true, .int 0⟩ [.replaceS [120]]
+    ≠ Spec.run (es5Eng (dE false false) (.ch (.lit 97))) [98, 97] id ⟨true, .int 0⟩ [.replaceS [120]] := by decide
+/-- Dev `empty_adjacent`: "abc".split is fine but "abc".match(/b*/g) loses the empty match after "b" -/
+example : (Model.builtinStringMatch (charEngine (dG false false) (.quant (.ch (.lit 98)) .star false)) ⟨true, .int 0⟩ [97, 98, 99]).2
+    ≠ (Spec.stringMatch (es5Eng (dE false false) (.quant (.ch (.lit 98)) .star false)) ⟨true, .int 0⟩ [97, 98, 99]).2 := by decide
+/-- Dev `subst_two_digit` (expansion only): with ten groups "$10" is group 1 followed by "0" -/
+example : Model.expand [97, 98] [some (0, 2), some (0, 1), none, none, none, none, none, none, none, none, some (1, 2)] [36, 49, 48]
+    ≠ Spec.expand [97, 98] [some (0, 2), some (0, 1), none, none, none, none, none, none, none, none, some (1, 2)] [36, 49, 48] := by decide
+/-- Dev `flags_unknown`: flags "x" -/
+example : Model.parseFlags [120] false false false ≠ Spec.parseFlags [120] false false false := by decide
+
+/-- non-vacuity of exec_end_to_end: /a+?b|c/ on "xaabc" -/
+example : (Re.alt (.seq (.quant (.ch (.lit 97)) .plus true) (.ch (.lit 98))) (.ch (.lit 99))).simpleLoops = true ∧
+    noLeftCtx (Re.alt (.seq (.quant (.ch (.lit 97)) .plus true) (.ch (.lit 98))) (.ch (.lit 99))) = true := by decide
+example : ascii [120, 97, 97, 98, 99] := by intro b hb; simp at hb; omega
+
+/-! ## 6. witnesses of the byte-offset and syntax deviation regions (the driver's concrete engines) -/
+section
+open OttoVerif OttoVerif.C10.Driver
+
+/-- Dev `lastindex_bytes`: /a/g.exec("\u00e9a") leaves lastIndex 3 (bytes), ES5 2 -/
+example : Model.run (goEngine (dG false false) (.ch (.lit 97))) [0xC3, 0xA9, 0x61] ⟨true, .int 0⟩ [.exec]
+    ≠ Spec.run (es5Engine (dE false false) (.ch (.lit 97))) (Str.unitsOfBytes [0xC3, 0xA9, 0x61]) Str.unitsOfBytes ⟨true, .int 0⟩ [.exec] := by decide
+/-- Dev `search_bytes`: "\u00e9a".search(/a/) is 2 -/
+example : Model.run (goEngine (dG false false) (.ch (.lit 97))) [0xC3, 0xA9, 0x61] ⟨false, .int 0⟩ [.search]
+    ≠ Spec.run (es5Engine (dE false false) (.ch (.lit 97))) (Str.unitsOfBytes [0xC3, 0xA9, 0x61]) Str.unitsOfBytes ⟨false, .int 0⟩ [.search] := by decide
+/-- Dev `astral_subject`: /^.$/ on U+1F600 (one code point, two code units) -/
+example : Model.run (goEngine (dG false false) (.seq .bol (.seq .dot .eol))) [0xF0, 0x9F, 0x98, 0x80] ⟨false, .int 0⟩ [.test]
+    ≠ Spec.run (es5Engine (dE false false) (.seq .bol (.seq .dot .eol))) (Str.unitsOfBytes [0xF0, 0x9F, 0x98, 0x80]) Str.unitsOfBytes ⟨false, .int 0⟩ [.test] := by decide
+/-- Dev `lenient_syntax`: `a{,2}` is not an ES5 pattern; it is passed through and Go accepts it -/
+example : parsePattern false [97, 123, 44, 50, 125] = .err ∧ Model.transform (fun _ => false) [97, 123, 44, 50, 125] = .ok [97, 123, 44, 50, 125]
+    ∧ parsePattern true [97, 123, 44, 50, 125] ≠ .err := by decide
+/-- Dev `empty_class`: `[]` is an ES5 pattern (matches nothing); Go rejects the unchanged text -/
+example : parsePattern false [91, 93] = .ok (.set false []) ∧ Model.transform (fun _ => false) [91, 93] = .ok [91, 93]
+    ∧ parsePattern true [91, 93] = .err := by decide
+/-- Dev `repeat_limit`: `a{1001}` -/
+example : parsePattern false [97, 123, 49, 48, 48, 49, 125] ≠ .err ∧ parsePattern true [97, 123, 49, 48, 48, 49, 125] = .err := by decide
+end
 
 end OttoVerif.C10.Thm
